@@ -11,6 +11,10 @@ enumerates every execution whose number of deviations is within the bound.
 from .drive import HarnessError
 
 
+class ReplayDivergence(HarnessError):
+    """Replaying a recorded prefix met other decision points than recorded."""
+
+
 class RootOutOfRange(Exception):
     """The root prefix of a shard names an alternative that this
     implementation does not offer (the sub-tree does not exist here; the
@@ -38,12 +42,12 @@ class Ctx:
             if c >= n and i < self.root_len:
                 raise RootOutOfRange()
             if c >= n:
-                raise HarnessError(
+                raise ReplayDivergence(
                     "replay divergence at point %d (%r): choice %d of %d"
                     % (i, label, c, n)
                 )
             if self.guard is not None and self.guard[i] != (label, n):
-                raise HarnessError(
+                raise ReplayDivergence(
                     "replay divergence at point %d: recorded %r, now %r"
                     % (i, self.guard[i], (label, n))
                 )
@@ -95,6 +99,7 @@ def explore(run, bound=None, max_executions=None, double_every=50, on_exec=None,
     found = []
     stack = [(tuple(root), None)]
     root_len = len(root)
+    diverged = []
     while stack:
         prefix, guard = stack.pop()
         if max_executions is not None and stats.executions >= max_executions:
@@ -106,6 +111,11 @@ def explore(run, bound=None, max_executions=None, double_every=50, on_exec=None,
         except RootOutOfRange:
             stats.root_missing = True
             continue
+        except ReplayDivergence as exc:
+            # see below ("the same choices gave another outcome"): tolerated
+            # only next to reported violations
+            diverged.append(str(exc))
+            continue
         if len(ctx.choices) < len(prefix) and len(prefix) <= root_len:
             # the execution ended before reaching the decision this shard is
             # rooted at: it is the same execution in every sibling shard and
@@ -115,10 +125,22 @@ def explore(run, bound=None, max_executions=None, double_every=50, on_exec=None,
                 continue
             prefix = tuple(ctx.choices)
         if len(ctx.choices) < len(prefix):
-            raise HarnessError(
-                "replay divergence: execution ended after %d of %d recorded "
-                "choices" % (len(ctx.choices), len(prefix))
-            )
+            # The execution ended before the decisions recorded for this
+            # prefix were reached.  With fresh objects per execution that
+            # means state outside them changed the behaviour (see the double
+            # run below).  The execution is still a complete execution and is
+            # judged; without any violation it is a harness error.
+            if on_exec is not None:
+                on_exec(ctx, obs, violations)
+            if not violations:
+                raise HarnessError(
+                    "replay divergence: execution ended after %d of %d recorded "
+                    "choices" % (len(ctx.choices), len(prefix))
+                )
+            stats.executions += 1
+            for v in violations:
+                found.append((tuple(ctx.choices), v))
+            continue
         stats.executions += 1
         if double_every and (
             stats.executions % double_every == 1 or violations
@@ -129,10 +151,34 @@ def explore(run, bound=None, max_executions=None, double_every=50, on_exec=None,
             if obs2 != obs or ctx2.choices != ctx.choices or bool(violations2) != bool(
                 violations
             ):
-                raise HarnessError(
-                    "nondeterminism: choices %r gave %r then %r"
-                    % (ctx.choices, obs, obs2)
-                )
+                # The same choices gave another outcome.  Every execution
+                # builds fresh clients, agents and a fresh loop, so either the
+                # harness leaks state between executions (a harness error) or
+                # the code under test keeps state outside the objects it is
+                # given.  The second run is judged like any other execution:
+                # if its outcome violates the oracle it is reported as such;
+                # only when neither run violates anything is this a harness
+                # error.
+                if on_exec is not None:
+                    on_exec(ctx2, obs2, violations2)
+                    stats.executions += 1
+                if not violations2:
+                    v1 = list(violations)
+                    if on_exec is not None:
+                        probe = list(v1)
+                        on_exec(ctx, obs, probe)
+                        v1 = probe
+                    if not v1:
+                        raise HarnessError(
+                            "nondeterminism: choices %r gave %r then %r"
+                            % (ctx.choices, obs, obs2)
+                        )
+                for v in violations2:
+                    v = dict(v)
+                    v.setdefault("detail", {})
+                    if isinstance(v["detail"], dict):
+                        v["detail"] = dict(v["detail"], second_run_of_the_same_schedule=True, first_run_outcome=repr(obs)[:300])
+                    found.append((tuple(ctx2.choices), v))
         new_points = len(ctx.choices) - len(prefix)
         stats.nodes += new_points
         stats.transitions += len(ctx.choices)
@@ -157,6 +203,9 @@ def explore(run, bound=None, max_executions=None, double_every=50, on_exec=None,
             # choices after the prefix are all 0 -> dev unchanged
         # depth-first, lowest alternative of the shallowest point first
         stack.extend(reversed(pending))
+    if diverged and not found:
+        raise HarnessError("%d replays diverged and no execution violated the oracle; first: %s" % (len(diverged), diverged[0]))
+    stats.replay_divergences = len(diverged)
     return stats, found
 
 
